@@ -580,9 +580,8 @@ class BaseCurve(Intface_BaseCurve):
                 for i, line in enumerate(matrix):
                     newctrlpoints.append(0 * oldctrlpoints[0])
                     for j, point in enumerate(oldctrlpoints):
-                        newpoint = line[j] * point
-                        newpoint /= newweights[i]
-                        newctrlpoints[i] += newpoint
+                        newpoint = (line[j] * point) / newweights[i]
+                        newctrlpoints[i] = newctrlpoints[i] + newpoint
         oldstate = self.__knotvector, self.__ctrlpoints, self.__weights
         try:
             self.ctrlpoints = None
